@@ -224,6 +224,19 @@ def check_config(mod, k, cfg, st: infra.Stats):
                 exp_dr = {other_ext: [ext]}
                 if dr != exp_dr:
                     viol(sname + ".dependentRequired", f"{dr} != {exp_dr}")
+            # the definitions extracted on their own (OpenAPI components) are the inline ones, names included
+            from apischema.json_schema import definitions_schema
+
+            for side, fn in (("deserialization", deserialization_schema), ("serialization", serialization_schema)):
+                inline = fn(H, all_refs=True, **kw).get("$defs", {})
+                defs = definitions_schema(**{side: [H]}, all_refs=True, **kw)
+                if dict(defs) != dict(inline):
+                    viol("definitions_schema." + side, f"definitions {json.dumps(defs, sort_keys=True)[:160]} != inline $defs {json.dumps(inline, sort_keys=True)[:160]}")
+                for dname, d in defs.items():
+                    if dname.startswith(f"C{k}") and set(d.get("properties", {})) != {ext, other_ext}:
+                        viol("definitions_schema." + side + ".properties", f"{dname}: {sorted(d.get('properties', {}))}")
+                    if dname == f"H{k}" and inner_ext not in d.get("properties", {}):
+                        viol("definitions_schema." + side + ".properties", f"{dname}: {sorted(d.get('properties', {}))}")
             # dependent_required is enforced on, and reported with, the external names
             D = getattr(mod, f"D{k}")
             dep_ext = DYN[dyn](CLASS_AL[cal]("dep") if cal else "dep")
